@@ -4,7 +4,7 @@ import EinxModel.Proofs.NotationPrintFinal
 # M1 Notation — the normal form of `parseOp`'s results (assembly) and the bridge to `Printable`
 
 * `finish_NRoot` / `parseOp_NRoot`: every tree that `parseOp` returns satisfies `NRoot` and passes the bracket check.
-* `PRoot_of_NRoot`: an `NRoot` tree without the three bad patterns and without a numeric axis inside brackets is `PRoot`.
+* `PRoot_of_NRoot`: an `NRoot` tree without the three bad patterns is `PRoot`.
 * `printable_of_parseOp`: `parseOp s = .ok t → Excluded t = false → Printable t = true`.
 -/
 namespace Einx.Notation
@@ -122,14 +122,6 @@ theorem anyNodeL_false {p : Expr → Bool} : ∀ {cs : List Expr}, anyNodeL p cs
     · exact h.1
     · exact anyNodeL_false h.2 c hc
 
-theorem numInBrL_false {inBr : Bool} : ∀ {cs : List Expr}, numInBrL inBr cs = false → ∀ c ∈ cs, numInBr inBr c = false
-  | [], _, c, hc => by cases hc
-  | x :: xs, h, c, hc => by
-    simp only [numInBrL, Bool.or_eq_false_iff] at h
-    rcases List.mem_cons.mp hc with rfl | hc
-    · exact h.1
-    · exact numInBrL_false h.2 c hc
-
 theorem isAxisName_anon : isAxisName anonName = false := by decide
 
 theorem not_anon_of_axisOK {n : Str} {v : Option Nat} {b : Int} (h : axisOK n v b = true) : (n == anonName) = false := by
@@ -166,34 +158,30 @@ theorem NoBadL.tail {c : Expr} {cs : List Expr} (h : NoBadL (c :: cs)) : NoBad c
   exact ⟨⟨h1.1, h2.1, h3.1⟩, h1.2, h2.2, h3.2⟩
 
 mutual
-/-- An `N` tree without the three bad patterns and without a numeric axis inside brackets is printable (`PT`). -/
-theorem PT_of_N : ∀ (x : Expr) (inBr al : Bool), N inBr al x = true → NoBad x → numInBr inBr x = false →
+/-- An `N` tree without the three bad patterns is printable (`PT`). -/
+theorem PT_of_N : ∀ (x : Expr) (inBr al : Bool), N inBr al x = true → NoBad x →
     PT inBr al x = true
-  | .axis n v b e, inBr, al, h, _, hn => by
+  | .axis n v b e, inBr, al, h, _ => by
     cases v with
     | none => simpa only [N, axisOK, PT] using h
-    | some k =>
-      simp only [numInBr, Option.isSome_some, Bool.and_true] at hn
-      simp only [PT, hn, Bool.not_false]
-  | .flat i b e, inBr, al, h, hb, hn => by
+    | some k => simp only [PT]
+  | .flat i b e, inBr, al, h, hb => by
     simp only [N, Bool.and_eq_true] at h
     obtain ⟨h1, h2, h3⟩ := hb
     simp only [anyNode, Bool.or_eq_false_iff] at h1 h2 h3
-    simp only [numInBr] at hn
-    have ih := PT_of_N i inBr true h.2 ⟨h1.2, h2.2, h3.2⟩ hn
+    have ih := PT_of_N i inBr true h.2 ⟨h1.2, h2.2, h3.2⟩
     have hc : i.isConcat = false := by
       cases i <;> first | rfl | (simp [patFlatConcat] at h3)
     simp only [PT, Bool.and_eq_true, Bool.not_eq_true']
     exact ⟨⟨by simpa using h.1, hc⟩, ih⟩
-  | .brackets i b e, inBr, al, h, hb, hn => by
+  | .brackets i b e, inBr, al, h, hb => by
     simp only [N, Bool.and_eq_true] at h
     obtain ⟨h1, h2, h3⟩ := hb
     simp only [anyNode, Bool.or_eq_false_iff] at h1 h2 h3
-    simp only [numInBr] at hn
-    have ih := PT_of_N i true true h.2 ⟨h1.2, h2.2, h3.2⟩ hn
+    have ih := PT_of_N i true true h.2 ⟨h1.2, h2.2, h3.2⟩
     simp only [PT, Bool.and_eq_true]
     exact ⟨h.1, ih⟩
-  | .ellipsis i d b e, inBr, al, h, hb, hn => by
+  | .ellipsis i d b e, inBr, al, h, hb => by
     simp only [N, Bool.or_eq_true, Bool.and_eq_true] at h
     simp only [PT, Bool.or_eq_true, Bool.and_eq_true, Bool.not_eq_true']
     rcases h with h | h
@@ -201,10 +189,9 @@ theorem PT_of_N : ∀ (x : Expr) (inBr al : Bool), N inBr al x = true → NoBad 
     · right
       obtain ⟨h1, h2, h3⟩ := hb
       simp only [anyNode, Bool.or_eq_false_iff] at h1 h2 h3
-      simp only [numInBr] at hn
       have hl : i.isList = false := by
         cases i <;> first | rfl | (simp [patEllList] at h1)
-      have ih := PT_of_N i inBr false (N_notList h.2 hl) ⟨h1.2, h2.2, h3.2⟩ hn
+      have ih := PT_of_N i inBr false (N_notList h.2 hl) ⟨h1.2, h2.2, h3.2⟩
       refine ⟨⟨?_, ?_⟩, ih⟩
       · cases i with
         | axis n v bi ei =>
@@ -219,62 +206,56 @@ theorem PT_of_N : ∀ (x : Expr) (inBr al : Bool), N inBr al x = true → NoBad 
         | args => simp [N] at h
         | op => simp [N] at h
         | _ => simp [ellOperand, Expr.isAxis, Expr.isFlat, Expr.isBrackets, Expr.isConcat]
-  | .concat cs b e, inBr, al, h, hb, hn => by
+  | .concat cs b e, inBr, al, h, hb => by
     simp only [N, Bool.and_eq_true] at h
     obtain ⟨h1, h2, h3⟩ := hb
     simp only [anyNode, Bool.or_eq_false_iff] at h1 h2 h3
-    simp only [numInBr] at hn
-    have ih := PTL_of_NL cs inBr h.2 ⟨h1.2, h2.2, h3.2⟩ hn
+    have ih := PTL_of_NL cs inBr h.2 ⟨h1.2, h2.2, h3.2⟩
     simp only [PT, Bool.and_eq_true]
     exact ⟨h.1, ih⟩
-  | .list cs b e, inBr, al, h, hb, hn => by
+  | .list cs b e, inBr, al, h, hb => by
     simp only [N, Bool.and_eq_true] at h
     obtain ⟨h1, h2, h3⟩ := hb
     simp only [anyNode, Bool.or_eq_false_iff] at h1 h2 h3
-    simp only [numInBr] at hn
-    have ih := PTL_of_NL cs inBr h.2 ⟨h1.2, h2.2, h3.2⟩ hn
+    have ih := PTL_of_NL cs inBr h.2 ⟨h1.2, h2.2, h3.2⟩
     simp only [PT, Bool.and_eq_true]
     exact ⟨h.1, ih⟩
-  | .args .., _, _, h, _, _ => by simp [N] at h
-  | .op .., _, _, h, _, _ => by simp [N] at h
-theorem PTL_of_NL : ∀ (cs : List Expr) (inBr : Bool), NL inBr cs = true → NoBadL cs → numInBrL inBr cs = false →
+  | .args .., _, _, h, _ => by simp [N] at h
+  | .op .., _, _, h, _ => by simp [N] at h
+theorem PTL_of_NL : ∀ (cs : List Expr) (inBr : Bool), NL inBr cs = true → NoBadL cs →
     PTL inBr cs = true
-  | [], _, _, _, _ => rfl
-  | c :: cs, inBr, h, hb, hn => by
+  | [], _, _, _ => rfl
+  | c :: cs, inBr, h, hb => by
     simp only [NL, Bool.and_eq_true] at h
-    simp only [numInBrL, Bool.or_eq_false_iff] at hn
     have hb' := hb.tail
     simp only [PTL, Bool.and_eq_true]
-    exact ⟨PT_of_N c inBr false h.1 hb'.1 hn.1, PTL_of_NL cs inBr h.2 hb'.2 hn.2⟩
+    exact ⟨PT_of_N c inBr false h.1 hb'.1, PTL_of_NL cs inBr h.2 hb'.2⟩
 end
 
-theorem PArgs_of_NArgs {a : Expr} (h : NArgs a = true) (hb : NoBad a) (hn : numInBr false a = false) : PArgs a = true := by
+theorem PArgs_of_NArgs {a : Expr} (h : NArgs a = true) (hb : NoBad a) : PArgs a = true := by
   cases a with
   | args as b e =>
     simp only [NArgs, Bool.and_eq_true, List.all_eq_true] at h
     obtain ⟨h1, h2, h3⟩ := hb
     simp only [anyNode, Bool.or_eq_false_iff] at h1 h2 h3
-    simp only [numInBr] at hn
     simp only [PArgs, Bool.and_eq_true, List.all_eq_true]
     refine ⟨h.1, fun c hc => ?_⟩
     exact PT_of_N c false true (h.2 c hc)
-      ⟨anyNodeL_false h1.2 c hc, anyNodeL_false h2.2 c hc, anyNodeL_false h3.2 c hc⟩ (numInBrL_false hn c hc)
+      ⟨anyNodeL_false h1.2 c hc, anyNodeL_false h2.2 c hc, anyNodeL_false h3.2 c hc⟩
   | _ => simp [NArgs] at h
 
-/-- An `NRoot` tree without the three bad patterns and without a numeric axis inside brackets is `PRoot`. -/
-theorem PRoot_of_NRoot {t : Expr} (h : NRoot t = true) (hb : hasBadPattern t = false) (hn : numInBr false t = false) :
-    PRoot t = true := by
+/-- An `NRoot` tree without the three bad patterns is `PRoot`. -/
+theorem PRoot_of_NRoot {t : Expr} (h : NRoot t = true) (hb : hasBadPattern t = false) : PRoot t = true := by
   cases t with
   | op cs b e =>
     simp only [NRoot, Bool.and_eq_true, List.all_eq_true] at h
     simp only [hasBadPattern, Bool.or_eq_false_iff] at hb
     obtain ⟨⟨h1, h2⟩, h3⟩ := hb
     simp only [anyNode, Bool.or_eq_false_iff] at h1 h2 h3
-    simp only [numInBr] at hn
     simp only [PRoot, Bool.and_eq_true, List.all_eq_true]
     refine ⟨h.1, fun c hc => ?_⟩
     exact PArgs_of_NArgs (h.2 c hc)
-      ⟨anyNodeL_false h1.2 c hc, anyNodeL_false h2.2 c hc, anyNodeL_false h3.2 c hc⟩ (numInBrL_false hn c hc)
+      ⟨anyNodeL_false h1.2 c hc, anyNodeL_false h2.2 c hc, anyNodeL_false h3.2 c hc⟩
   | _ => simp [NRoot] at h
 
 end NF
@@ -299,9 +280,8 @@ open NF in
 theorem printable_of_parseOp (text : Str) (t : Expr) (h : parseOp text = .ok t) (hx : Excluded t = false) :
     Printable t = true := by
   obtain ⟨hroot, hconf⟩ := parseOp_NRoot text t h
-  simp only [Excluded, Bool.or_eq_false_iff] at hx
-  obtain ⟨⟨hb, hn⟩, hadj⟩ := hx
-  simp only [Printable, Bool.and_eq_true, Bool.not_eq_true', List.isEmpty_iff]
-  exact ⟨⟨PRoot_of_NRoot hroot hb hn, hadj⟩, hconf⟩
+  simp only [Excluded] at hx
+  simp only [Printable, Bool.and_eq_true, List.isEmpty_iff]
+  exact ⟨PRoot_of_NRoot hroot hx, hconf⟩
 
 end Einx.Notation
